@@ -160,6 +160,36 @@ def tables_c05(out, notes):
         raise Refuse(f"Group.render: expected one list literal of optional attributes, found {lits!r}")
     out.append(f"Definition group_optional_attrs : list str := {coq_list(coq_str(x) for x in lits[0])}.")
 
+    # ---- behaviour probes for two repaired defects: the mirror follows whichever behaviour the tree
+    # under check has (so that the check is green before and after the `fix:` commits land), and the
+    # theorems say what holds in either case.  Anything that is neither behaviour is refused.
+    ref = C.ContactFieldReference("Age", "age", "numeric").render()
+    if ref == {"name": "Age", "key": "age", "type": "numeric"}:
+        own_type = True
+    elif set(ref) == {"name", "key", "type"} and ref["type"] is type:
+        own_type = False
+    else:
+        raise Refuse(f"ContactFieldReference.render of a typed reference gives {ref!r}: neither its own type nor the builtin")
+    out.append(f"Definition fieldref_renders_own_type : bool := {coq_bool(own_type)}.")
+
+    attrs = dict(query="q", status="s", system=False, count=0)
+    other = dict(query="q2", status="s2", system=True, count=7)
+    probe = K.RapidProContainer(groups=[C.Group("G", "u1", **attrs), C.Group("H", None), C.Group("G", None, **other)])
+    rendered = probe.render()["groups"]
+    if len(rendered) != 2 or [g.get("name") for g in rendered] != ["G", "H"] or rendered[0].get("uuid") != "u1" \
+            or not rendered[1].get("uuid") or set(rendered[1]) != {"name", "uuid"}:
+        raise Refuse(f"RapidProContainer.validate lists the top-level groups as {rendered!r}: not one entry per name in order")
+    if rendered[0] == {"name": "G", "uuid": "u1", **attrs}:
+        keeps = True      # the first group of a name keeps its attributes
+    elif rendered[0] == {"name": "G", "uuid": "u1"}:
+        keeps = False     # rebuilt as Group(name, uuid)
+    else:
+        raise Refuse(f"RapidProContainer.validate renders a top-level group as {rendered[0]!r}: a behaviour the C05 model has no mirror for")
+    if probe.render()["groups"] != rendered:
+        raise Refuse("RapidProContainer.validate: a second render lists the groups differently")
+    out.append(f"Definition validate_keeps_group_attrs : bool := {coq_bool(keeps)}.")
+    notes.append(f"C05: probes fieldref_renders_own_type={own_type} validate_keeps_group_attrs={keeps}")
+
     # ---- set_contact_* properties
     lits = [l for l in list_literals_in(A.SetContactPropertyAction._assign_fields_from_dict)]
     if len(lits) != 1:
